@@ -4,7 +4,7 @@ from ..norm import n, P, C, V, ANY, match, find_all, binop
 from . import layout, common, hexcodec, cmpmodel, c04, panics
 
 ID = "C05"
-CONFIGS = {"quick": ["K0", "K1", "K3", "K9"], "thorough": ["K0", "K1", "K3", "K4", "K5", "K9", "K13"]}
+CONFIGS = {"quick": ["K0", "K1", "K3", "K4", "K9"], "thorough": ["K0", "K1", "K3", "K4", "K5", "K9", "K13"]}
 FIXTURES = {"panic"}
 META = {
     "explanation": (
